@@ -133,6 +133,11 @@ pub trait Property: Send + Sync + 'static {
     fn case_timeout_s(&self) -> u64 {
         120
     }
+    /// verdict for a case whose isolated worker did not answer within `case_timeout_s`.
+    /// `None` (default) = inconclusive.  Only for cases where non-return is itself what the property forbids.
+    fn timeout_verdict(&self, _case: &Self::Case) -> Option<Verdict> {
+        None
+    }
     fn max_shrink_iters(&self, tier: Tier) -> u32 {
         tier.pick(2000, 20000)
     }
@@ -306,6 +311,9 @@ fn eval_case<P: Property>(p: &P, exec: &mut Exec<P>, case: &P::Case, st: &mut St
                         }
                         worker::Reply::Timeout => {
                             child.respawn();
+                            if let Some(v) = p.timeout_verdict(case) {
+                                return (v, Obs::default());
+                            }
                             st.inconclusive += 1;
                             st.inconclusive_notes.push("watchdog on solo re-run".into());
                             (Verdict::Skip("watchdog".into()), Obs::default())
@@ -314,6 +322,9 @@ fn eval_case<P: Property>(p: &P, exec: &mut Exec<P>, case: &P::Case, st: &mut St
                 }
                 worker::Reply::Timeout => {
                     child.respawn();
+                    if let Some(v) = p.timeout_verdict(case) {
+                        return (v, Obs::default());
+                    }
                     st.inconclusive += 1;
                     st.inconclusive_notes.push(format!("watchdog after {}s", p.case_timeout_s()));
                     (Verdict::Skip("watchdog".into()), Obs::default())
